@@ -180,8 +180,8 @@ def k_conf_reuse(ctx, kind, seed):
     replace = r.random() < 0.5           # ids given to the configuration as new field objects (True) or written into the existing ones (False)
     for rnd in range(hist_len(r, 2, 5)):
         if rnd:
-            how = r.choice(("int", "bytes"))
-            conv = (lambda v, w: v) if how == "int" else (lambda v, w: v.to_bytes(w, "big"))
+            how = r.choice(("int", "bytes", "longer_bytes"))
+            conv = (lambda v, w: v) if how == "int" else (lambda v, w: v.to_bytes(w, "big")) if how == "bytes" else (lambda v, w: v.to_bytes(w, "big") + b"\xa5\x5a\x00")
             for name, attr, w in (("src", "source_entity_id", cfg["idw"]), ("dst", "dest_entity_id", cfg["idw"]), ("seq", "transaction_seq_num", cfg["seqw"])):
                 if r.random() < 0.7:
                     cfg[name] = rand_uint(r, 8 * w)
